@@ -288,6 +288,12 @@ func runC17(rc *RunCtx) {
 			}
 			w := live[rc.Intn(len(live))]
 			if rc.Chance(0.12) {
+				// a proof that does not verify (right index for a newcomer, tampered chunk): whoever sends it, nothing is enrolled
+				item, hl := w.F.Proof(0)
+				item = append([]byte{0x5a}, item...)
+				s.SubmitProof(provs[rc.Intn(4)], w.F.Root(), w.OwnerAddr, w.Start, 0, item, hl)
+				paths["invalid-proof"] = true
+			} else if rc.Chance(0.12) {
 				// the prover spells its own address in upper case (also when it is already listed under the usual spelling)
 				if s.ProveHonestUpper(provs[rc.Intn(4)], w).Success {
 					paths["upper-case-prover"] = true
